@@ -133,11 +133,11 @@ PROPS["C19"] = dict(
 )
 
 PROPS["C20"] = dict(
-    suites=["c20", "c20c", "c20w", "c20x"],
+    suites=["c20", "c20c", "c20w", "c20x", "c01l"],
     gen=[("c20", "ServlinVerif/Gen/C20Tables.lean")],
     lean_modules=["ServlinVerif.Props.C20", "ServlinVerif.Props.C05", "ServlinVerif.Props.C20Disk"],
     audit="Audit/C20.lean",
-    shards={"c20": 1, "c20w": 2, "c20x": 1},
+    shards={"c20": 1, "c20w": 2, "c20x": 1, "c01l": 2},
     rule="every status-named constructor found by scanning src/response.rs (executed; exhaustive); every HttpError variant (exhaustive, "
          "compile-time exhaustive match in the harness) x payload strings over arbitrary text incl. CR/LF, paths, non-ASCII (random). "
          "Non-trivial = status rows, and error cases carrying a payload.",
@@ -203,8 +203,8 @@ PROPS["C07"] = dict(
 )
 
 PROPS["C01"] = dict(
-    suites=["c01", "c03b", "c01l", "c01n"],
-    shards={"c01n": 1, "c01l": 2},
+    suites=["c01", "c03b", "c01l", "c01n", "c01k"],
+    shards={"c01n": 1, "c01l": 2, "c01k": 2},
     gen=[("headtab", "ServlinVerif/Gen/HeadTable.lean")],
     lean_modules=["ServlinVerif.Props.C01", "ServlinVerif.Props.C01Bound", "ServlinVerif.Props.HeadTable"],
     audit="Audit/C01.lean",
@@ -215,7 +215,7 @@ PROPS["C01"] = dict(
          "for BUF in {64, 8192}; all 2-way splits and EOF/error at every offset of 4 short heads. Non-trivial = a blank line is present "
          "(parser reached) or the stream is non-empty.",
     nontrivial=lambda tag, args, obs: not obs.startswith("err:Truncated") and not obs.startswith("err:Disconnected"),
-    klass=lambda tag, args, obs: "c03b:ops=%d" % min(args[1].count(";") + 1, 24) if tag == "c05" else ("c01l:stopped-logger" if tag == "c04" else ("c01n:no-timer-thread" if tag == "c01n" else "c01:" + obs.split(" ")[0][:40])),
+    klass=lambda tag, args, obs: "c03b:ops=%d" % min(args[1].count(";") + 1, 24) if tag == "c05" else ("c01l:stopped-logger" if tag == "c04" else ("c01n:no-timer-thread" if tag == "c01n" else "c01k:refused-client-stays" if tag == "c12" else "c01:" + obs.split(" ")[0][:40])),
     explanation="Head::try_read / read_http_head / read_http_request modelled (regexes as explicit matchers, url crate as parameter supplied "
                 "per case by the harness). Theorems: C01_total (never panics, only documented errors), readHeadOp_eq_D / "
                 "C01_sched_irrelevant (every read schedule gives the denotational result), C01_consumes_exactly, C01_eof_anywhere.",
